@@ -4,6 +4,7 @@ package main
 
 import (
 	"go/ast"
+	"go/constant"
 	"go/token"
 	"go/types"
 	"os"
@@ -14,7 +15,7 @@ func init() { register("C04", checkC04) }
 
 func checkC04(r *Run) propMeta {
 	meta := propMeta{Level: "other",
-		Explanation: "Decides where user-controlled text can reach SQL text and that each such position has its sanitizer: (R1) string values are rendered only by formatValue's string case, which doubles single quotes inside one quoted literal (sufficient under standard_conforming_strings=on, which the shipped schema does not change); (R2) every raw-text AST node (pgsql.FormattingLiteral) is built from a compile-time constant, a DataType/Operator name, or the alias quoting function — never from other runtime text; (R3) provenance analysis with one abstract cell per struct field: a pgsql.Identifier derived from a user symbol (variable, projection alias, and the optimiser shape fields they are copied into) may reach the SQL AST only in the alias position of an aliased expression (which the formatter renders through formatAlias) or the translator's alias table; in any other identifier position (compound identifier, column list, table name, ORDER BY) it is rendered verbatim and is reported; (R4) materialised parameters are rendered through AsLiteral/formatValue and never written raw; property and map keys are emitted as literals. NOT decided: that the value PostgreSQL reads back equals the Cypher value (escape decoding is value-level), NUL bytes and length limits inside the driver.",
+		Explanation: "Decides where user-controlled text can reach SQL text and that each such position has its sanitizer: (R1) string values are rendered only by formatValue's string case, which doubles single quotes inside one quoted literal (sufficient under standard_conforming_strings=on, which the shipped schema does not change); (R2) every raw-text AST node (pgsql.FormattingLiteral) is built from a compile-time constant, a DataType/Operator name, or the alias quoting function — never from other runtime text; (R3) provenance analysis with one abstract cell per struct field: a pgsql.Identifier derived from a user symbol (variable, projection alias, and the optimiser shape fields they are copied into) may reach the SQL AST only in the alias position of an aliased expression (which the formatter renders through formatAlias) or the translator's alias table; in any other identifier position (compound identifier, column list, table name, ORDER BY) it is rendered verbatim and is reported; (R4) materialised parameters are rendered through AsLiteral/formatValue and never written raw; property and map keys are emitted as literals. (R5) the Cypher text that FromCypher echoes in a `-- ` comment is written only through the replacer that re-opens the comment after \\r\\n, \\r and \\n; identifiers are written only through formatIdentifier/formatAlias (their own String() is raw text), with two table entries for positions that R3 keeps free of user text. NOT decided: that the value PostgreSQL reads back equals the Cypher value (escape decoding is value-level), NUL bytes and length limits inside the driver.",
 		Assumptions: []string{"PostgreSQL lexes '…''…' as one string literal (standard_conforming_strings=on) and \"…\"\"…\" as one delimited identifier"},
 		TrustedBase: []string{"go/types", "this analyser"}}
 	if err := r.Load("./cypher/..."); err != nil {
@@ -59,6 +60,7 @@ func checkC04(r *Run) propMeta {
 	// who else writes string-typed runtime values raw? builder.Write(x) with x a non-constant string that is not the result
 	// of a strconv formatter / sanitizer, inside package format
 	raw := 0
+	rawTbl := r.LoadTable("c04_raw_identifier_writes")
 	for _, f := range fp.Syntax {
 		for _, d := range f.Decls {
 			fd, ok := d.(*ast.FuncDecl)
@@ -84,19 +86,30 @@ func checkC04(r *Run) propMeta {
 					case *ast.CallExpr:
 						if fn := calleeOf(finfo, x); fn != nil {
 							full := funcFullName(fn)
-							if strings.HasPrefix(full, "strconv.Format") || fn.Name() == "String" || fn.Name() == "formatAlias" || fn.Name() == "formatIdentifier" || full == "strings.ReplaceAll" {
-								// String(): DataType / Operator / Identifier stringers — identifiers are judged by R3
+							if fn.Name() == "String" {
+								// stringers of closed token types are fine; an identifier's String() is its raw, undelimited text
+								if sel, isSel := x.Fun.(*ast.SelectorExpr); isSel {
+									if rt := namedName(finfo.TypeOf(sel.X)); rt != "Identifier" && rt != "CompoundIdentifier" {
+										continue
+									}
+								}
+							}
+							if strings.HasPrefix(full, "strconv.Format") || fn.Name() == "formatAlias" || fn.Name() == "formatIdentifier" || full == "strings.ReplaceAll" {
 								continue
 							}
 						}
 					case *ast.Ident, *ast.SelectorExpr:
 						t := namedName(tv.Type)
-						if t == "Identifier" || t == "FormattingLiteral" || t == "DataType" || t == "Operator" {
-							continue // typed tokens: R2 / R3
+						if t == "FormattingLiteral" || t == "DataType" || t == "Operator" {
+							continue // typed tokens: R2
 						}
 					}
+					if reason, listed := r.InTable(rawTbl, "c04_raw_identifier_writes", construct); listed {
+						r.Pass("C04-R1-raw-write", construct, a.Pos(), "table: %s", reason)
+						continue
+					}
 					raw++
-					r.Fail("C04-R1-raw-write", construct, a.Pos(), "a runtime string is written to the SQL text without passing formatValue, a strconv formatter or the alias quoting function")
+					r.Fail("C04-R1-raw-write", construct, a.Pos(), "a runtime string is written to the SQL text without passing formatValue, a strconv formatter, formatIdentifier or the alias quoting function (an identifier's own String() is its raw text: a name that is not a plain identifier is then read as SQL)")
 				}
 				return true
 			})
@@ -252,6 +265,7 @@ func checkC04(r *Run) propMeta {
 	checkIdentifierTaint(r, identSanitised)
 	// ---- R4 materialised parameters
 	checkMaterializedParameters(r)
+	checkCommentEcho(r)
 	r.Floor("C04-R2-raw-text-node", 40)
 	r.Floor("C04-R3-identifier-position", 20)
 	return meta
@@ -472,5 +486,126 @@ func checkMaterializedParameters(r *Run) {
 	}
 	if !found {
 		r.Undecide("C04-R4: the formatter's parameter materialisation branch was not found")
+	}
+}
+
+// checkCommentEcho (R5): FromCypher prefixes the SQL with the query's Cypher text as a `-- ` line comment.  PostgreSQL
+// ends a line comment at \n and at \r, so the echoed text (which contains the user's string literals verbatim) must
+// have every \r\n, \r and \n followed by a new comment opener, on every path: a path that writes the text directly
+// lets a literal containing a bare carriage return end the comment and have the rest of the literal parsed as SQL.
+func checkCommentEcho(r *Run) {
+	const rule = "C04-R5-comment-echo"
+	tp := r.MustPkg("cypher/models/pgsql/translate")
+	info := tp.TypesInfo
+	fd := FuncDecls(tp)["FromCypher"]
+	if fd == nil || fd.Body == nil {
+		r.Undecide("C04-R5: translate.FromCypher not found")
+		return
+	}
+	// the variable holding the emitted Cypher text: assigned from <buffer>.String() (possibly trimmed)
+	var echoed types.Object
+	ast.Inspect(fd.Body, func(n ast.Node) bool {
+		as, ok := n.(*ast.AssignStmt)
+		if !ok || len(as.Lhs) != 1 || len(as.Rhs) != 1 || echoed != nil {
+			return true
+		}
+		isText := false
+		ast.Inspect(as.Rhs[0], func(m ast.Node) bool {
+			if call, ok := m.(*ast.CallExpr); ok {
+				if sel, ok := call.Fun.(*ast.SelectorExpr); ok && sel.Sel.Name == "String" && len(call.Args) == 0 {
+					isText = true
+				}
+			}
+			return true
+		})
+		if id, ok := as.Lhs[0].(*ast.Ident); ok && isText {
+			if b, ok := info.TypeOf(id).Underlying().(*types.Basic); ok && b.Kind() == types.String {
+				echoed = info.Defs[id]
+			}
+		}
+		return true
+	})
+	if echoed == nil {
+		r.Undecide("C04-R5: the variable holding the echoed Cypher text was not identified in FromCypher")
+		return
+	}
+	// the replacer: a package-level strings.NewReplacer whose keys include \r\n, \r and \n
+	goodReplacers := map[types.Object]bool{}
+	for _, f := range tp.Syntax {
+		ast.Inspect(f, func(n ast.Node) bool {
+			vs, ok := n.(*ast.ValueSpec)
+			if !ok {
+				return true
+			}
+			for i, nm := range vs.Names {
+				if i >= len(vs.Values) {
+					continue
+				}
+				call, ok := vs.Values[i].(*ast.CallExpr)
+				if !ok {
+					continue
+				}
+				if fn := calleeOf(info, call); fn == nil || funcFullName(fn) != "strings.NewReplacer" {
+					continue
+				}
+				keys := map[string]string{}
+				for k := 0; k+1 < len(call.Args); k += 2 {
+					kv, ok1 := info.Types[call.Args[k]]
+					vv, ok2 := info.Types[call.Args[k+1]]
+					if ok1 && ok2 && kv.Value != nil && vv.Value != nil {
+						keys[constant.StringVal(kv.Value)] = constant.StringVal(vv.Value)
+					}
+				}
+				ok3 := true
+				for _, k := range []string{"\r\n", "\r", "\n"} {
+					if v, has := keys[k]; !has || !strings.HasSuffix(v, "-- ") || !strings.Contains(v, "\n") {
+						ok3 = false
+					}
+				}
+				if ok3 {
+					goodReplacers[info.Defs[nm]] = true
+				}
+			}
+			return true
+		})
+	}
+	uses, bad := 0, token.NoPos
+	ast.Inspect(fd.Body, func(n ast.Node) bool {
+		call, ok := n.(*ast.CallExpr)
+		if !ok {
+			return true
+		}
+		mentions := false
+		for _, a := range call.Args {
+			if id, ok := ast.Unparen(a).(*ast.Ident); ok && info.Uses[id] == echoed {
+				mentions = true
+			}
+		}
+		if !mentions {
+			return true
+		}
+		if fn := calleeOf(info, call); fn != nil && fn.Pkg() != nil && fn.Pkg().Path() == "strings" && (fn.Name() == "IndexByte" || fn.Name() == "Contains" || fn.Name() == "ContainsAny" || fn.Name() == "ContainsRune" || fn.Name() == "Index" || fn.Name() == "IndexAny") {
+			return true // a test on the text, not a write
+		}
+		uses++
+		sel, ok := call.Fun.(*ast.SelectorExpr)
+		viaReplacer := false
+		if ok {
+			if id, ok := ast.Unparen(sel.X).(*ast.Ident); ok && goodReplacers[info.Uses[id]] {
+				viaReplacer = true
+			}
+		}
+		if !viaReplacer && bad == token.NoPos {
+			bad = call.Pos()
+		}
+		return true
+	})
+	switch {
+	case uses == 0:
+		r.Undecide("C04-R5: FromCypher never writes the echoed Cypher text")
+	case bad != token.NoPos:
+		r.Fail(rule, "FromCypher:echo", bad, "the echoed Cypher text reaches the output on a path that does not go through the line-break replacer (\\r\\n, \\r and \\n each re-opening the comment): PostgreSQL also ends a `--` comment at a bare carriage return, so the remainder of a string literal that contains one is parsed as SQL")
+	default:
+		r.Pass(rule, "FromCypher:echo", fd.Pos(), "every write of the echoed text goes through a replacer that re-opens the comment after \\r\\n, \\r and \\n")
 	}
 }
